@@ -20,6 +20,9 @@
 // ops (codec):  enc <R|U> <enc address> <enc id> | dec <enc message>
 // obs:          adv/start/crash: p=<i>@<enc addr>,<enc addr>;<i>@…   (GetPeers of every running node; "-" if none)
 //               deliver/inject: p=<i>@…  (the receiving node only) | noop
+//               every p=… is followed by cb=<i>@<list>;…  for the same nodes: the GetPeers() value seen by the
+//               most recent invocation of a callback registered with RegisterUpdatedPeersCallback ("-": never
+//               invoked) — what a subscriber such as the deterministic sharder has loaded
 //               tick/stop: pub=<enc message> | pub=none | noop
 //               enc: m=<enc marshalled> ok=<0|1> [act=<enc> addr=<enc> id=<enc>]   (unmarshal of the marshalled string)
 //               dec: ok=<0|1> [act= addr= id=]
@@ -117,6 +120,11 @@ type node struct {
 	p               *peer.RedisPubsubPeers
 	ps              *hpubsub
 	clk             *mclock
+	met             *metrics.MockMetrics
+	viewMu          sync.Mutex
+	view            []string // GetPeers() at the last callback invocation
+	viewSet         bool
+	cbDone          chan struct{}
 	running         bool // started, not stopped, not crashed
 	spawned         bool // Ready()'s goroutine exists and has not been told to finish
 }
@@ -158,17 +166,51 @@ func (r *runner) peersOf(i int) string {
 	return fmt.Sprintf("%d@%s", i, encList(ps))
 }
 
+func (r *runner) viewOf(i int) string {
+	nd := r.nodes[i]
+	nd.viewMu.Lock()
+	defer nd.viewMu.Unlock()
+	if !nd.viewSet {
+		return fmt.Sprintf("%d@-", i)
+	}
+	return fmt.Sprintf("%d@%s", i, encList(nd.view))
+}
+
 func (r *runner) allPeers() string {
-	var out []string
+	var out, cbs []string
 	for i, nd := range r.nodes {
 		if nd.running {
 			out = append(out, r.peersOf(i))
+			cbs = append(cbs, r.viewOf(i))
 		}
 	}
 	if len(out) == 0 {
-		return "p=-"
+		return "p=- cb=-"
 	}
-	return "p=" + strings.Join(out, ";")
+	return "p=" + strings.Join(out, ";") + " cb=" + strings.Join(cbs, ";")
+}
+
+// handle runs the node's real listen callback on msg and, when checkHash stored a new hash (so it
+// started the registered callbacks in goroutines of their own), waits for our callback to finish.
+func (r *runner) handle(i int, nd *node, msg string) string {
+	// the hash checkHash stored is also what it reports as the peer_hash gauge (exported API only)
+	h0, _ := nd.met.Get("peer_hash")
+	nd.ps.cb(context.Background(), msg)
+	cbState := ""
+	if h1, _ := nd.met.Get("peer_hash"); h1 != h0 {
+		select {
+		case <-nd.cbDone:
+		case <-time.After(waitFor):
+			cbState = " cbwait=timeout"
+		}
+	}
+	// a callback that ran although the hash did not change would be picked up here
+	select {
+	case <-nd.cbDone:
+		cbState = " cbextra=1"
+	default:
+	}
+	return "p=" + r.peersOf(i) + " cb=" + r.viewOf(i) + cbState
 }
 
 func (r *runner) node(tok string) (int, *node) {
@@ -199,9 +241,11 @@ func (r *runner) start(i int, nd *node) (string, bool) {
 	}
 	nd.ps = &hpubsub{out: make(chan string, 64)}
 	nd.clk = &mclock{FakeClock: r.fake, made: make(chan struct{}, 8)}
+	nd.met = &metrics.MockMetrics{}
+	nd.met.Start()
 	nd.p = &peer.RedisPubsubPeers{
 		Config:     cfg,
-		Metrics:    &metrics.NullMetrics{},
+		Metrics:    nd.met,
 		Logger:     &logger.NullLogger{},
 		PubSub:     nd.ps,
 		Clock:      nd.clk,
@@ -213,6 +257,16 @@ func (r *runner) start(i int, nd *node) (string, bool) {
 		return "start-error", true
 	}
 	nd.p.VerifPeersUseClock(r.fake)
+	// stand-in for the sharder: on every change notification, load the peer list
+	nd.cbDone = make(chan struct{}, 16)
+	p := nd.p
+	nd.p.RegisterUpdatedPeersCallback(func() {
+		l, _ := p.GetPeers()
+		nd.viewMu.Lock()
+		nd.view, nd.viewSet = l, true
+		nd.viewMu.Unlock()
+		nd.cbDone <- struct{}{}
+	})
 	if err := nd.p.Ready(); err != nil {
 		return "ready-error", true
 	}
@@ -306,8 +360,7 @@ func (r *runner) Do(op []string) (string, bool) {
 		if nd == nil || !nd.running || !have {
 			return "noop", true
 		}
-		nd.ps.cb(context.Background(), m)
-		return "p=" + r.peersOf(i), true
+		return r.handle(i, nd, m), true
 	case "inject":
 		if len(op) != 3 {
 			return "bad-op", true
@@ -316,8 +369,7 @@ func (r *runner) Do(op []string) (string, bool) {
 		if nd == nil || !nd.running {
 			return "noop", true
 		}
-		nd.ps.cb(context.Background(), kit.Dec(op[2]))
-		return "p=" + r.peersOf(i), true
+		return r.handle(i, nd, kit.Dec(op[2])), true
 	}
 	return "bad-op", true
 }
@@ -472,7 +524,7 @@ func (comp) Gen(r *kit.Rng, maxLen int, tier string) kit.Case {
 			}
 		}
 		if !fair && r.Chance(10) {
-			id = []string{"", "a,b", "R", "0"}[r.Intn(4)]
+			id = []string{"a,b", "R", "0", "a,b,c"}[r.Intn(4)] // never "": hashList does not see an empty id (wyhash of no bytes returns its seed)
 		}
 		for ids[id] {
 			id = id + "x"
